@@ -286,6 +286,9 @@ type histCfg struct {
 	// BMCOutSeq the number its own (outbound) session sequence starts after
 	BMCSID    uint32 `json:"bmc_sid,omitempty"`
 	BMCOutSeq uint32 `json:"bmc_out_seq,omitempty"`
+	// StopOnError: the history ends at the first operation that returns an error
+	// (long undisturbed sessions: what follows a failure adds nothing)
+	StopOnError bool `json:"stop_on_error,omitempty"`
 	// UDP: run over the library's real transport and a loopback socket
 	// (newWorldUDP) instead of the in-memory transport.
 	UDP bool `json:"udp,omitempty"`
@@ -317,6 +320,8 @@ type histObs struct {
 	SessOK             bool
 	KeysOK             bool
 	Infra              string // harness-side failure (socket could not be opened)
+	// Truncated: with StopOnError, the number of operations that were run
+	Truncated int
 }
 
 // histMenu builds the menu function for an alphabet name; checks register
@@ -603,6 +608,11 @@ func runHistory(cfg histCfg, ch *env.Chooser) *histObs {
 		if w.Ctx.Err() != nil {
 			// the caller's context is spent: later operations run with a fresh one
 			w.Ctx, w.Cancel = newCtx()
+		}
+		if cfg.StopOnError && (!r.ErrNil || r.Panic != "") && pos+1 < len(cfg.Ops) {
+			o.Truncated = pos + 1
+			o.Results = o.Results[:pos+1]
+			break
 		}
 	}
 	curOp = -1
